@@ -69,6 +69,27 @@ func (rcFamily) Gen(r *rand.Rand, i int, tier string) *hc.Case {
 	latest := int64(0) // generator's idea of the newest presented index
 	farUsed := false
 	for len(ops) < nops {
+		if !farUsed && r.Intn(12) == 0 {
+			// a READ is what moves the window: (optionally empty it,) read some buckets ahead, then use and read
+			// stamps the move has made stale, before anything newer is presented
+			n := int64(p.N)
+			at := func(idx int64) hc.TS {
+				if idx < 0 {
+					idx = 0
+				}
+				return p.at(idx*p.W + hc.Pick(r, int64(0), p.W-1, r.Int63n(p.W)))
+			}
+			if r.Intn(2) == 0 {
+				ops = append(ops, rcOp{"reset", at(latest)})
+			}
+			latest += hc.Pick(r, int64(2), n, n+1, n+3, 5*n)
+			ops = append(ops, rcOp{hc.Pick(r, "sum", "sum", "buckets"), at(latest)})
+			for k := 1 + r.Intn(3); k > 0; k-- {
+				ops = append(ops, rcOp{"inc", at(latest - n - hc.Pick(r, int64(-1), 0, 0, 1, 2))})
+			}
+			ops = append(ops, rcOp{hc.Pick(r, "sum", "buckets"), at(latest - hc.Pick(r, int64(1), 2, 2, n, n+1))})
+			continue
+		}
 		t := rcStamp(r, p, &latest, &farUsed, len(ops) > nops*2/3)
 		switch x := r.Intn(100); {
 		case x < 55:
